@@ -25,9 +25,24 @@ class Buffers:
         now = env.now
         log = m.log
         moved = set()          # parts some device received during this event
+        views = getattr(log, 'receive_views', None)
         while self.n_recv < len(log.receives):
             moved.add(id(log.receives[self.n_recv][2]))
+            v = views[self.n_recv] if isinstance(views, list) and self.n_recv < len(views) else None
+            rec = log.receives[self.n_recv]
             self.n_recv += 1
+            if v and 'level' in v and rec[1] in self.bufs and v.get('part_in_stored'):
+                # (a part re-entering the buffer it is just leaving - a rework loop - is counted twice for a moment)
+                ctx.count('levels_read_inside_a_receive_callback_not_judged')
+            elif v and 'level' in v and rec[1] in self.bufs and not v.get('hand_made'):
+                # what the buffer's receive callback could read: the part it is being told about is counted
+                want = v['stored'] + v['part_count']
+                if v['level'] != want:
+                    ctx.report('level', f'buffer {rec[1]}: inside its receive callback for {rec[2].name} at {rec[0]} '
+                               f'level() was {v["level"]} while it held {want} parts ({v["stored"]} stored + '
+                               f'{v["part_count"]} being received)')
+                    return
+                ctx.count('levels_read_inside_a_receive_callback')
         for b in self.bufs:
             dev = m.devs[b]
             stored = dev.stored_parts
